@@ -2,7 +2,7 @@
 it is not in properties.jsonl and therefore never appears in MANIFEST.json)"""
 
 PROP = {
- 'gen_tables': ['TransProbe', 'TransJsonSep', 'TransSampler', 'TransMultiWS', 'TransZio', 'TransCaller', 'TransEscape', 'TransCE', 'TransCEAdd', 'TransCores', 'TransLogger', 'TransLocked', 'TransSweeten', 'TransCapture', 'TransJsonEnc', 'TransConsole', 'TransSlog', 'TransOpen'],
+ 'gen_tables': ['TransProbe', 'TransJsonSep', 'TransSampler', 'TransMultiWS', 'TransZio', 'TransCaller', 'TransEscape', 'TransCE', 'TransCEAdd', 'TransCores', 'TransLogger', 'TransLocked', 'TransSweeten', 'TransCapture', 'TransJsonEnc', 'TransConsole', 'TransSlog', 'TransOpen', 'TransLevel', 'TransDerive', 'TransMessage', 'TransCtor', 'TransWriters', 'TransStackFmt', 'TransGrpc'],
  'rule': 'ops: for every translated function (the probe functions of harness/cmd/zvh/trans_probe.go and every whitelisted zap function '
          'reachable with go:linkname) 60 (quick) / 1500 (thorough) random argument/receiver-field vectors, integers drawn boundary-heavy '
          '(0, ±1, min, max, 2^31, 2^32 …), indices around the valid range so that index/slice/divide panics occur; the REAL compiled Go '
